@@ -1,12 +1,12 @@
 (** C03: a history may KEEP the handle of a rearrangement (the object NNIRearranger hands to its
-    callback), apply it, run other structure-preserving operations (SortNeighborsByTips,
-    RotateInternalNodes, ReinitIndexes), and undo it later.
+    callback), apply it, run other operations that keep every node alive (SortNeighborsByTips,
+    RotateInternalNodes, ReinitIndexes, Reroot), and undo it later.
 
     Go's nni object remembers NODE POINTERS (n1, n2, n1_2 and the moved child of n2) and Undo
     looks their positions up again in the current neighbour arrays; the positional record of
     Model/NNI.v is only valid on the tree it was made for.  Node identity is carried here by
     marker comments put on the four nodes right after Apply: the models of sort / rotate
-    permute slots and never read comments, so the markers travel with the nodes; the judge
+    permute slots, the model of reroot moves parent slots, and none reads comments, so the markers travel with the nodes; the judge
     compares the tree with the markers stripped.  Undo finds the marked nodes, recomputes the
     four indexes and performs the same exchange ([NNI.swap_local]) as Model/NNI.v's [undo].
     No proofs in this file. *)
@@ -60,7 +60,9 @@ Definition hold_apply (k : nat) (t : utree) : res (option utree) :=
             let p1 := (p ++ [NNI.r_j r])%list in
             match mark_at p mk_n2 t1 with
             | Some a => match mark_at p1 mk_n1 a with
-                        | Some b => mark_at (p1 ++ [NNI.n12_index r])%list mk_m2 b
+                        | Some b => match mark_at (p1 ++ [NNI.n12_index r])%list mk_m2 b with
+                                    | Some c => mark_at (removelast p) mk_m1 c
+                                    | None => None end
                         | None => None end
             | None => None end
           else
@@ -83,24 +85,44 @@ Fixpoint up_idx (sl : list slot) : nat :=
   | _ :: r => S (up_idx r)
   end.
 
-(** nni.Undo on the marked tree: n1_2 (now next to n2) and the moved child (now next to n1) are
-    exchanged back; when n2 is above n1 the central branch is inverted back *)
-Definition hold_undo (tm : utree) : res utree :=
-  match find_mark mk_n1 tm, find_mark mk_n2 tm, find_mark mk_m2 tm with
-  | Some p1, Some p2, Some pm2 =>
+(** nni.Undo on the marked tree, wherever the root is now.  Go looks the four positions up by
+    pointer, exchanges n1_2 (next to n2) and the moved child m2 (next to n1) in place, each branch
+    keeping its direction, and inverts the central branch iff n1_2 is the parent of n2.
+      n1 above n2, m2 and n1_2 children           : plain exchange seen from n1;
+      n2 above n1, n1_2 the parent of n2          : exchange with inversion ([swap_local] at n2);
+      n2 above n1, n1_2 a child of n2             : plain exchange seen from n2;
+      n1 above n2 and m2 the PARENT of n1 (the root is in the clade that Apply moved): exchange
+        with inversion seen from n1 -- n2 takes n1's place below m2 (since the fix "NNI Undo left the
+        central branch wrongly oriented when the tree had been re-rooted into the clade moved by
+        Apply": the branch is inverted when e2.Right() == n2 || e1.Right() == n1).
+    [Ok None] (a step left to the oracle alone) is no longer produced. *)
+Definition hold_undo (tm : utree) : res (option utree) :=
+  match find_mark mk_n1 tm, find_mark mk_n2 tm, find_mark mk_m1 tm, find_mark mk_m2 tm with
+  | Some p1, Some p2, Some pm1, Some pm2 =>
     match node_at tm p1, node_at tm p2 with
     | Some n1, Some n2 =>
-      let r :=
-          if Nat.ltb (length p1) (length p2) then
-            (* n1 above n2 *)
-            match find_mark mk_m1 tm with
-            | Some pm1 => NNI.at_path (NNI.swap_local (last p2 0) (up_idx (uslots n2)) (last pm2 0) (last pm1 0)) p1 tm
-            | None => None
-            end
-          else
-            NNI.at_path (NNI.swap_local (last p1 0) (up_idx (uslots n1)) (up_idx (uslots n2)) (last pm2 0)) p2 tm in
-      match r with Some t' => Ok (strip_marks t') | None => Err err_nni end
+      let child_of (p q : list nat) := Nat.eqb (length p) (S (length q)) in
+      if child_of p2 p1 then
+        (* n1 above n2; n1_2 is then a child of n2 *)
+        if child_of pm2 p1 then
+          match NNI.at_path (NNI.swap_local (last p2 0) (up_idx (uslots n2)) (last pm2 0) (last pm1 0)) p1 tm with
+          | Some t' => Ok (Some (strip_marks t'))
+          | None => Err err_nni
+          end
+        else
+          match NNI.at_path (NNI.swap_local (last p2 0) (up_idx (uslots n2)) (up_idx (uslots n1)) (last pm1 0)) p1 tm with
+          | Some t' => Ok (Some (strip_marks t'))
+          | None => Err err_nni
+          end
+      else if child_of p1 p2 then
+        (* n2 above n1; m2 is then a child of n1 *)
+        let ia := if child_of pm1 p2 then last pm1 0 else up_idx (uslots n2) in
+        match NNI.at_path (NNI.swap_local (last p1 0) (up_idx (uslots n1)) ia (last pm2 0)) p2 tm with
+        | Some t' => Ok (Some (strip_marks t'))
+        | None => Err err_nni
+        end
+      else Err err_nni
     | _, _ => Err err_nni
     end
-  | _, _, _ => Err err_nni
+  | _, _, _, _ => Err err_nni
   end.
